@@ -205,6 +205,35 @@ M("c16-slice-alias", "C16", "src/ckl/nodes.py",
             return result''', "l[0 to *] returns the list itself")
 
 
+# ---- C20
+M("c20-crlf-two-lines", "C20", "src/ckl/lexer.py",
+  '''                if ch == "\\n":
+                    line += 1
+                    column = 0''', '''                if ch in "\\r\\n":
+                    line += 1
+                    column = 0''', "CR counts as a line break of its own")
+M("c20-ident-pos-at-emit", "C20", "src/ckl/lexer.py",
+  '''                    elif token:
+                        here = start
+                        self.tokens.append(Token(token, "identifier", here))''',
+  '''                    elif token:
+                        here = SourcePos(fname, line, column - len(token))
+                        self.tokens.append(Token(token, "identifier", here))''',
+  "identifier position computed at emission")
+M("c20-string-end-line", "C20", "src/ckl/lexer.py",
+  '''                if ch == "'":
+                    here = start
+                    self.tokens.append(Token(token, "string", here))''',
+  '''                if ch == "'":
+                    here = SourcePos(fname, line, start.column)
+                    self.tokens.append(Token(token, "string", here))''',
+  "single-quoted string stamped with the line where it ends")
+M("c20-error-node-posnext", "C20", "src/ckl/parser.py",
+  '''            result = NodeError(parse_expression(lexer), token.pos)''',
+  '''            result = NodeError(parse_expression(lexer), lexer.getPosNext())''',
+  "error statement stamped with the position of the following token")
+
+
 def run(cmd, cwd, env=None, timeout=3600):
     t0 = time.time()
     try:
